@@ -256,4 +256,6 @@ func C18(c *Ctx) {
 func C20(c *Ctx) {
 	R20FormatEffects(c)
 	R20Serialise(c)
+	R20TokenOwnership(c)
+	R20ItemPairing(c)
 }
